@@ -795,7 +795,11 @@ pub fn format_function_call_stmt(
 /// Functions which are used to only format a block within a statement
 /// These are used for range formatting
 pub(crate) mod stmt_block {
-    use crate::{context::Context, formatters::block::format_block, shape::Shape};
+    use crate::{
+        context::{Context, FormatNode},
+        formatters::block::format_block,
+        shape::Shape,
+    };
     #[cfg(feature = "luau")]
     use full_moon::ast::luau::TypeFunction;
     use full_moon::ast::{
@@ -808,10 +812,18 @@ pub(crate) mod stmt_block {
         table_constructor: &TableConstructor,
         shape: Shape,
     ) -> TableConstructor {
+        // Fields carry ignore directives just like statements do
+        let mut ctx = *ctx;
         let fields = table_constructor
             .fields()
             .pairs()
             .map(|pair| {
+                ctx = ctx.check_toggle_formatting(pair.value());
+                if let FormatNode::Skip = ctx.should_format_node(pair.value()) {
+                    return pair.to_owned();
+                }
+                let ctx = &ctx;
+
                 pair.to_owned().map(|field| match field {
                     Field::ExpressionKey {
                         brackets,
